@@ -76,9 +76,9 @@ def get_suffix(shape):
 
 def get_shape_from_array(value, nd):
     if hasattr(value, "shape"):
-        return value.shape
+        return tuple(value.shape)
     elif hasattr(value, "_shape"):
-        return value._shape
+        return tuple(value._shape)  # a list for views of dynamic shape
     if hasattr(value, "lower"):  # test for string
         return ()
     elif hasattr(value, "__len__"):
